@@ -290,3 +290,21 @@ def run_case(case):
         cl.append("stdout")
     nontrivial = len(lines) >= 3 and bool({"iv=1", "sn=unknown", "reverse_anchor"} & set(cl))
     return core.Result(nontrivial, cl)
+
+
+def enumerations(tier, shard, nshards):
+    if shard != 0:
+        return
+
+    def big():
+        # a file size no generated case reaches: 100 003 records (quick) / 500 001 records (thorough), plain in, plain out
+        import random
+
+        n = 100003 if tier == "quick" else 500001
+        rnd = random.Random(9)
+        order = [rnd.randrange(len(c08.POOL)) for _ in range(n)]
+        gaf = [c08.POOL[k].replace("p%d\t" % k, "v%d\t" % i, 1) for i, k in enumerate(order)]
+        yield {"gfa": c08.POOL_GFA, "gaf": gaf, "bgzf": None, "bgzip_out": False, "final_newline": True, "outind": False, "via": "api",
+               "tag_with_order_gfa": False}
+
+    yield ("%s records drawn from the near-tie pool" % ("100 003" if tier == "quick" else "500 001"), big(), True)
